@@ -254,6 +254,34 @@ namespace c14
         return std::string(what) + ":" + op;
     }
 
+    // Next operation of a history: an index chosen with the given weights, or -1 for
+    // "end of history". The end is encoded explicitly (two zero bytes) instead of by
+    // exhaustion of the choice sequence, so a case means the same with its trailing
+    // zero bytes stripped or padded (the engine's shrinker strips them).
+    inline int next_op(Src &s, std::initializer_list<unsigned> weights)
+    {
+        uint8_t b = s.u8();
+        if (b == 0)
+        {
+            b = s.u8();
+            if (b == 0)
+                return -1;
+        }
+        unsigned tot = 0;
+        for (unsigned w : weights)
+            tot += w;
+        unsigned r = (unsigned)(b - 1) % tot;
+        int i = 0;
+        for (unsigned w : weights)
+        {
+            if (r < w)
+                return i;
+            r -= w;
+            i++;
+        }
+        return 0;
+    }
+
     inline std::string ints(const std::vector<int> &v)
     {
         std::string s;
@@ -638,19 +666,21 @@ namespace c14
             check(op);
         }
 
-        void step()
+        bool step()
         {
-            size_t w = s.weighted({6, 4, 3, Api::erase ? 3u : 0u, 1, 2, 2, 3, 1, 2});
+            int w = next_op(s, {6, 4, 3, Api::erase ? 3u : 0u, 1, 2, 2, 3, 1, 2});
+            if (w < 0)
+                return false;
             if (w == 7)
             {
                 construct((int)s.below(SLOTS));
-                return;
+                return true;
             }
             int k = pick_live();
             if (k < 0)
             {
                 construct((int)s.below(SLOTS));
-                return;
+                return true;
             }
             V &v = sl[k].v();
             std::vector<int> &ref = sl[k].ref;
@@ -782,6 +812,7 @@ namespace c14
                 break;
             }
             }
+            return true;
         }
 
       public:
@@ -791,8 +822,11 @@ namespace c14
             ledger().reset();
             c.log("%s static_vector<%s,%zu>: ", Api::name, E::name, (size_t)N);
             construct(0);
-            for (int ops = 1; ops < MAX_OPS && !s.exhausted(); ops++)
-                step();
+            int ops = 1;
+            while (ops < MAX_OPS && step())
+                ops++;
+            if (ops >= 20)
+                c.label("ops>=20");
             for (int k = 0; k < SLOTS; k++)
                 if (sl[k].live())
                     destroy(k);
@@ -1032,20 +1066,22 @@ namespace c14
             check(op);
         }
 
-        void step()
+        bool step()
         {
             const unsigned P = Api::portable ? 1 : 0;
-            size_t w = s.weighted({8, 4, 2, 2, 1, 2 * P, 1 * P, 1 * P, 1 * P});
+            int w = next_op(s, {8, 4, 2, 2, 1, 2 * P, 1 * P, 1 * P, 1 * P});
+            if (w < 0)
+                return false;
             if (w == 1)
             {
                 construct((int)s.below(SLOTS));
-                return;
+                return true;
             }
             int k = pick_live();
             if (k < 0)
             {
                 construct((int)s.below(SLOTS));
-                return;
+                return true;
             }
             S &v = sl[k].v();
             std::string &ref = sl[k].ref;
@@ -1177,6 +1213,7 @@ namespace c14
                 }
                 break;
             }
+            return true;
         }
 
       public:
@@ -1185,8 +1222,11 @@ namespace c14
         {
             c.log("%s static_string<%zu>: ", Api::name, (size_t)N);
             construct(0);
-            for (int ops = 1; ops < MAX_OPS && !s.exhausted(); ops++)
-                step();
+            int ops = 1;
+            while (ops < MAX_OPS && step())
+                ops++;
+            if (ops >= 20)
+                c.label("ops>=20");
             for (int k = 0; k < SLOTS; k++)
                 if (sl[k].live())
                     destroy(k);
